@@ -452,6 +452,7 @@ func c07(c *Ctx) {
 	c06barrierUse(c, "C07.R9")
 	c07memCache(c)
 	c07flightClosuresDontSerialise(c)
+	c07registeredInsideFlight(c)
 	// R11 (round 8): the callers of the cache's flight keep the query inside it (C06.R15)
 	runShared(c, "C06.R15", "C07.R11", c06queriesInsideTake)
 }
@@ -779,5 +780,88 @@ func c07flightClosuresDontSerialise(c *Ctx) {
 	sortStrings(bad)
 	bad = uniqStrings(bad)
 	o := c.R.Check(len(bad) == 0 && sites >= 4 && locking >= 2, rule, "SingleFlight users#no-lock-across-work", "a function literal handed to SingleFlight.Do/DoEx performs no call while it holds a mutex (the mutex is shared by the flights of all keys; only map reads and writes happen under it)", "-", strings.Join(bad, "; "), bad, sites)
+	o.Sites = sites
+}
+
+// c07registeredInsideFlight (C07.R13, round 9): "creates each keyed resource at most once and hands the same instance to
+// everyone" — the resource a flight made is registered by the flight. A function that runs a literal through
+// SingleFlight.Do/DoEx writes the receiver's registry map only inside that literal: a store moved behind the flight
+// (`if fresh { p.clients[key] = client }`) leaves a window, after the flight's entry is gone and before the store, in
+// which the next caller finds neither a flight nor a registered resource and builds a second one.
+func c07registeredInsideFlight(c *Ctx) {
+	rule := "C07.R13"
+	var bad []string
+	sites, inside := 0, 0
+	isRecvMapUpdate := func(fn *ssa.Function, mu *ssa.MapUpdate) bool {
+		ld, ok := mu.Map.(*ssa.UnOp)
+		if !ok {
+			return false
+		}
+		fa, ok := ld.X.(*ssa.FieldAddr)
+		if !ok {
+			return false
+		}
+		root := fn
+		for root.Parent() != nil {
+			root = root.Parent()
+		}
+		if len(root.Params) == 0 || root.Signature.Recv() == nil {
+			return false
+		}
+		switch b := fa.X.(type) {
+		case *ssa.Parameter:
+			return b == root.Params[0]
+		case *ssa.FreeVar, *ssa.UnOp:
+			return true // the captured receiver
+		}
+		return false
+	}
+	for _, pk := range c.P.Pkgs {
+		rel := strings.TrimPrefix(pk.PkgPath, mod)
+		for _, fn := range c.P.AllFuncs(rel) {
+			flight := false
+			var lits []*ssa.Function
+			for _, b := range fn.Blocks {
+				for _, ins := range b.Instrs {
+					call, ok := ins.(ssa.CallInstruction)
+					if !ok {
+						continue
+					}
+					cc := call.Common()
+					if !cc.IsInvoke() || typeString(cc.Value.Type()) != "core/syncx.SingleFlight" {
+						continue
+					}
+					for _, a := range cc.Args {
+						if mc, ok := a.(*ssa.MakeClosure); ok {
+							flight = true
+							lits = append(lits, mc.Fn.(*ssa.Function))
+						}
+					}
+				}
+			}
+			if !flight {
+				continue
+			}
+			sites++
+			for _, b := range fn.Blocks {
+				for _, ins := range b.Instrs {
+					if mu, ok := ins.(*ssa.MapUpdate); ok && isRecvMapUpdate(fn, mu) {
+						bad = append(bad, fmt.Sprintf("%s: %s writes the registry map outside the literal it hands to the flight", c.P.Pos(mu.Pos()), funcDisplay(fn)))
+					}
+				}
+			}
+			for _, l := range lits {
+				for _, b := range l.Blocks {
+					for _, ins := range b.Instrs {
+						if mu, ok := ins.(*ssa.MapUpdate); ok && isRecvMapUpdate(l, mu) {
+							inside++
+						}
+					}
+				}
+			}
+		}
+	}
+	sortStrings(bad)
+	o := c.R.Check(len(bad) == 0 && sites >= 4 && inside >= 2, rule, "SingleFlight users#registered-inside", "a function that runs a literal through SingleFlight.Do/DoEx writes the receiver's registry map only inside that literal (the resource a flight made is registered before the flight's entry disappears)", "-", fmt.Sprintf("%d flight users, %d registry stores inside literals; %s", sites, inside, strings.Join(bad, "; ")), bad, sites)
 	o.Sites = sites
 }
